@@ -13,6 +13,7 @@ meta = {
     "author": "independent sub-agent given only the property text and its own scratch worktree",
     "confirmed_by_me": {
         "how": "tools/verify_seed.py in a fresh scratch worktree of /repo HEAD: demo.py on the unchanged tree, git apply patch.diff, demo.py again, then the pinned suite (pytest -n 8) compared with BASELINE.json stable_pass",
+        "base": v.get("base", "HEAD"),
         "demo_unchanged_rc": v.get("demo_unchanged_rc"),
         "demo_patched_rc": v.get("demo_patched_rc"),
         "suite_missing_from_stable": v.get("suite_missing_from_stable"),
